@@ -1359,6 +1359,44 @@ func (p *pkgCtx) hookList(fc *fileCtx, list []ast.Stmt) {
 			fc.need["vrace"] = true
 			fc.ins(s.Pos(), txt, 0)
 		}
+		// the condition of a loop is evaluated again on every iteration: hook it at the top of
+		// the body too (also keeps a spin on a plain flag from running away with the baton)
+		fs, _ := s.(*ast.ForStmt)
+		if ls, ok := s.(*ast.LabeledStmt); ok {
+			fs, _ = ls.Stmt.(*ast.ForStmt)
+		}
+		if fs != nil && fs.Cond != nil && fs.Body != nil {
+			c := &accs{p: p, fc: fc, reads: map[string]bool{}, writes: map[string]bool{}}
+			c.expr(fs.Cond)
+			if fs.Post != nil {
+				c.shallow(fs.Post)
+			}
+			var cids []string
+			for id := range c.writes {
+				cids = append(cids, id)
+			}
+			for id := range c.reads {
+				if !c.writes[id] {
+					cids = append(cids, id)
+				}
+			}
+			sort.Strings(cids)
+			ctxt := ""
+			for _, id := range cids {
+				fn := "R"
+				if c.writes[id] {
+					fn = "W"
+				}
+				if strings.Contains(id, ",") {
+					fn += "K"
+				}
+				ctxt += fmt.Sprintf("vrace.%s(%s); ", fn, id)
+			}
+			if ctxt != "" {
+				fc.need["vrace"] = true
+				fc.ins(fs.Body.Lbrace+1, " "+ctxt, 1)
+			}
+		}
 		p.hookNested(fc, s)
 	}
 }
